@@ -56,6 +56,27 @@ CHECKS = {
                 text="All strings up to the bound over a sharp alphabet, every per-character encoding choice, every field/wire "
                      "order, malformed inputs: decoded exactly once, bound by name, or the documented error; never a panic.",
                 ref="§4 C15", note="Reference decoder in engines/rt_extract/src/refmodel.rs; paths go through a real matchit router."),
+    "C16": dict(engine="server_mc", cat="model_checking",
+                tech="controlled-scheduler exploration of the real acceptor/worker threads at checkpoints (hook H2): exhaustive BFS of a shadow model, every maximal schedule replayed against the implementation",
+                text="All orderings of checkpoint releases and environment actions (connect, send, open gate, shutdown call, late connect) for "
+                     "1-2 workers x 1-3 clients x <=2 requests per connection x {Graceful generous, Graceful short, Forced}; every model "
+                     "schedule is executed on a fresh real server and every predicted event is awaited and compared (trace validation); "
+                     "oracle on observed facts: requests received before the call are answered, no accept after the call, resolution times.",
+                ref="§4 C16, Appendix C", note="Interleavings inside tokio/hyper/kernel below checkpoint granularity are not enumerated; real time is used "
+                                             "for timeouts (150 ms / 2 s with 400 ms slack, unsafe executions are re-run); Linux x86_64 only (parking is "
+                                             "detected through /proc). Three recorded findings (bytes not yet announced), see known_findings.json."),
+    "C19": dict(engine="rt_bp", cat="exploration", tech="bounded-exhaustive enumeration of builder call trees + one annotated item per attribute combination through real rustdoc JSON",
+                text="Every well-typed blueprint-builder call tree up to the bound (incl. overriding calls, nesting depth 2) is built through the "
+                     "public API, persisted and read back exactly as pavexc does, and compared field by field (locations included) with the value "
+                     "a reference builds from the call list; 470 annotated items covering the legal attribute-argument combinations are documented "
+                     "with rustdoc JSON and parsed by the real attribute parser.",
+                ref="§4 C19", note="Part B uses the installed nightly (rustdoc JSON format 57), cached by a hash of the generated crate + macro/parser sources."),
+    "C20": dict(engine="rt_domain", cat="exploration", tech="bounded-exhaustive enumeration of guard strings, hosts and guard pairs vs reference validator/matcher (hook H4) through a real matchit router",
+                text="All guard strings up to length 6/9 over the DNS+template alphabet plus length edge cases vs an independent validator; every accepted "
+                     "guard x every host of the host universe through a real matchit router with the generated normalisation (recovered from the "
+                     "generator source and self-checked); all pairs of accepted guards vs the conflict detector.",
+                ref="§4 C20", note="In-process half: the generated normalisation and the conflict detector are replicated and guarded by run-time source "
+                                   "self-checks (a change there is a machinery error or a routing violation, never silence). Three recorded findings."),
     "C17": dict(engine="rt_typealg", cat="exploration", tech="bounded-exhaustive enumeration of type trees, all ordered pairs and triples",
                 text="All Type trees up to depth 2 (quick) / 3 (thorough): template law incl. mutability, equivalence "
                      "reflexive/symmetric/transitive and sound vs brute-force bijection search, canonical forms, render round-trip.",
@@ -72,9 +93,6 @@ NOT_YET = {
     "C10": "seed/history sweep not built yet in this round",
     "C11": "session_mc engine still under construction",
     "C12": "session_mc engine still under construction",
-    "C16": "server_mc engine still under construction",
-    "C19": "rt_bp engine still under construction",
-    "C20": "rt_domain engine still under construction",
 }
 
 
